@@ -105,6 +105,15 @@ def gen_cases(tier, seed):
         yield {"xdev": r.random() < 0.15, "fs": "tmpfs" if r.random() < 0.3 else "ext4", "spec": [{"p": "src", "k": "d"}] + files, "pre": pre,
                "args": args, "single": single, "prior": prior, "driver": driver, "block": bname, "bsv": bsv,
                "workers": workers, "sched": r.choice(["os", "os", "pct", "jitter"]), "sseed": r.randrange(1 << 30)}
+    for i in range(4 if tier == "quick" else 24):
+        driver = ["parblock", "parfile"][i % 2]
+        b0 = (4 << 30) + r.choice([0, 4096, 1234567])
+        segs = [[0, 5000], [(2 << 30) - 100, 300], [b0, 70000], [b0 + (3 << 20), 1]]
+        f = {"p": "src/f0", "k": "f", "size": segs[-1][0] + 1 + r.choice([0, 4096]), "seed": r.randrange(1, 1 << 30), "segs": segs, "sync": True, "layout": "beyond-4GiB"}
+        bsel = r.choice([("1MB", 1000000), ("64KB", 65536), ("np", None)])
+        args = ["--driver", driver, "-w", str(r.choice([1, 4])), "--reflink", "never"] + (["--no-progress"] if bsel[1] is None else ["--block-size", str(bsel[1])]) + ["src/f0", "dst"]
+        yield {"fs": "ext4" if i % 4 < 2 else "tmpfs", "spec": [{"p": "src", "k": "d"}, f], "pre": [], "args": args, "single": True, "prior": "absent", "driver": driver,
+               "block": bsel[0], "bsv": bsel[1], "workers": 4, "sched": "os", "sseed": 1}
     if tier == "thorough":
         # one file larger than a single kernel copy request (2 GiB - 4 KiB), both drivers, --no-progress and 1MB blocks
         for driver in ("parblock", "parfile"):
